@@ -1154,6 +1154,35 @@ def discharge(ix, s):
             ub = upper_bound(ix, ops[1])
             if ub is not None and bits and ub <= bits:
                 return "D2 shift amount bounded below the operand width"
+            # the amount is a counter tested against a constant <= width on a dominating edge (`while bit < 8 { x >> bit }`)
+            ak = expr_key(ix, ops[1], casts=True)
+            if ak and bits:
+                hit = []
+
+                def pred_lt(dop, val, par):
+                    r = ix.resolve(dop)
+                    if not (r[0] == "rv" and r[1]["k"] == "bin" and r[1]["op"] in ("Lt", "Le", "Gt", "Ge")):
+                        return False
+                    op_, x, y = r[1]["op"], r[1]["a"], r[1]["b"]
+                    is_true = val == 1 or (isinstance(val, tuple) and val[0] == "not" and val[1] == (0,))
+                    is_false = val == 0
+                    ok_ = False
+                    if expr_key(ix, x, casts=True) == ak:
+                        cy = ix.resolve(y)
+                        if cy[0] == "const":
+                            c_ = cy[1]
+                            ok_ = (op_ == "Lt" and c_ <= bits and is_true) or (op_ == "Le" and c_ < bits and is_true) or (op_ == "Ge" and c_ <= bits and is_false) or (op_ == "Gt" and c_ < bits and is_false)
+                    elif expr_key(ix, y, casts=True) == ak:
+                        cx = ix.resolve(x)
+                        if cx[0] == "const":
+                            c_ = cx[1]
+                            ok_ = (op_ == "Gt" and c_ <= bits and is_true) or (op_ == "Ge" and c_ < bits and is_true) or (op_ == "Le" and c_ <= bits and is_false) or (op_ == "Lt" and c_ < bits and is_false)
+                    if ok_:
+                        hit.append(par)
+                    return ok_
+
+                if guard_dominates(ix, s.bb, pred_lt) and unchanged_between(ix, hit[-1], s.bb, _key_locals(ak, set())):
+                    return "D2 shift amount under a dominating comparison with a constant not above the operand width"
             return None
         if s.detail == "OverflowNeg":
             r0 = ix.resolve(ops[0]) if ops else ("unknown",)
@@ -1337,6 +1366,13 @@ def discharge(ix, s):
                     pass
                 if _from_find(ix, o[0], cdesc):
                     return "D9 start position returned by find() on the same string"
+            if adt.endswith("ops::RangeTo") and cdesc and o:
+                # `s[..end]` is `s[0..end]`
+                if _from_find(ix, o[0], cdesc):
+                    return "D9 end position returned by find() on the same string"
+                hi_ = ix.resolve(o[0])
+                if hi_[0] == "call" and ix.callee(hi_[1]).split("::")[-1] == "min" and any(len_of(ix, x) == cdesc for x in hi_[1]["args"]):
+                    return "D4 range end is min(len(), _) of the same container"
             if adt.endswith("ops::Range") and cdesc:
                 lo, hi = ix.resolve(o[0]), ix.resolve(o[1])
                 if lo[0] == "const" and lo[1] == 0:
